@@ -340,10 +340,13 @@ def select__child_path(self: XPathToken, context: ta.ContextType = None) \
                 elif isinstance(result, ElementNode):
                     if result.value not in items:
                         items.add(result)
-                        yield result
                 else:
                     items.add(result)
-                    yield result
+
+        # The nodes selected by a step are in document order only within each
+        # context node (e.g. in '//*/*' the children of an element follow the
+        # children of its parent): sort the merged results.
+        yield from cast(list[XPathNode], sorted(items, key=node_position))
 
 
 @method('//')
@@ -367,10 +370,10 @@ def select__descendant_path(self: XPathToken, context: ta.ContextType = None) \
                     elif isinstance(result, ElementNode):
                         if result.value not in items:
                             items.add(result)
-                            yield result
                     else:
                         items.add(result)
-                        yield result
+
+        yield from cast(list[XPathNode], sorted(items, key=node_position))
 
     else:
         if isinstance(context.document, DocumentNode):
